@@ -799,3 +799,11 @@ def replay(spec):
         if np.abs(traj[['VN', 'VE', 'VD']].values[k] - vn).max() > 1e-3:
             fails.append('returned velocity_n differs from C_en^T d/dt r_e by %.3g' % np.abs(traj[['VN', 'VE', 'VD']].values[k] - vn).max() + where)
     return {'violated': bool(fails), 'detail': fails}
+
+
+RIM = {'lat': -84.6, 'lon': 150.0, 'alt': 15000.0, 'VN': 250.0, 'VE': -200.0, 'VD': 5.0, 'roll': 120.0, 'pitch': -60.0, 'heading': -170.0}
+
+
+def FALLBACK(tier):
+    """numeric oracle specs put to the compiled code when the symbolic run is inconclusive (main.py)"""
+    return [{'check': 'rate', 'point': {}, 'params': {'form': 'position'}}, {'check': 'rate', 'point': {}, 'params': {'form': 'position+velocity'}}, {'check': 'stationary', 'point': {}, 'params': {'form': 'position'}}, {'check': 'wiring', 'point': {}}, {'check': 'initial_form', 'point': {}}, {'check': 'increments', 'point': {}}]
